@@ -118,9 +118,12 @@ Model/DcgCheck.vos Model/DcgCheck.vok Model/DcgCheck.required_vos: Model/DcgChec
 Proofs/ArithInt.vo Proofs/ArithInt.glob Proofs/ArithInt.v.beautified Proofs/ArithInt.required_vo: Proofs/ArithInt.v Model/GoInt.vo Model/F64.vo Model/Num.vo Gen/Arith_gen.vo
 Proofs/ArithInt.vio: Proofs/ArithInt.v Model/GoInt.vio Model/F64.vio Model/Num.vio Gen/Arith_gen.vio
 Proofs/ArithInt.vos Proofs/ArithInt.vok Proofs/ArithInt.required_vos: Proofs/ArithInt.v Model/GoInt.vos Model/F64.vos Model/Num.vos Gen/Arith_gen.vos
-Props/C07.vo Props/C07.glob Props/C07.v.beautified Props/C07.required_vo: Props/C07.v Model/GoInt.vo Model/F64.vo Model/Num.vo Gen/Arith_gen.vo Proofs/ArithInt.vo
-Props/C07.vio: Props/C07.v Model/GoInt.vio Model/F64.vio Model/Num.vio Gen/Arith_gen.vio Proofs/ArithInt.vio
-Props/C07.vos Props/C07.vok Props/C07.required_vos: Props/C07.v Model/GoInt.vos Model/F64.vos Model/Num.vos Gen/Arith_gen.vos Proofs/ArithInt.vos
+Proofs/FloatKernels.vo Proofs/FloatKernels.glob Proofs/FloatKernels.v.beautified Proofs/FloatKernels.required_vo: Proofs/FloatKernels.v Model/GoInt.vo Model/F64.vo Model/Num.vo Gen/Arith_gen.vo
+Proofs/FloatKernels.vio: Proofs/FloatKernels.v Model/GoInt.vio Model/F64.vio Model/Num.vio Gen/Arith_gen.vio
+Proofs/FloatKernels.vos Proofs/FloatKernels.vok Proofs/FloatKernels.required_vos: Proofs/FloatKernels.v Model/GoInt.vos Model/F64.vos Model/Num.vos Gen/Arith_gen.vos
+Props/C07.vo Props/C07.glob Props/C07.v.beautified Props/C07.required_vo: Props/C07.v Model/GoInt.vo Model/F64.vo Model/Num.vo Gen/Arith_gen.vo Proofs/ArithInt.vo Proofs/FloatKernels.vo
+Props/C07.vio: Props/C07.v Model/GoInt.vio Model/F64.vio Model/Num.vio Gen/Arith_gen.vio Proofs/ArithInt.vio Proofs/FloatKernels.vio
+Props/C07.vos Props/C07.vok Props/C07.required_vos: Props/C07.v Model/GoInt.vos Model/F64.vos Model/Num.vos Gen/Arith_gen.vos Proofs/ArithInt.vos Proofs/FloatKernels.vos
 Proofs/Promise.vo Proofs/Promise.glob Proofs/Promise.v.beautified Proofs/Promise.required_vo: Proofs/Promise.v Model/Term.vo Model/Unify.vo Model/Clause.vo Model/Machine.vo
 Proofs/Promise.vio: Proofs/Promise.v Model/Term.vio Model/Unify.vio Model/Clause.vio Model/Machine.vio
 Proofs/Promise.vos Proofs/Promise.vok Proofs/Promise.required_vos: Proofs/Promise.v Model/Term.vos Model/Unify.vos Model/Clause.vos Model/Machine.vos
